@@ -591,6 +591,8 @@ def run_big_interp(task):
             spec[m] = dict((task.get("monitor_opts") or {}).get(m, {}))
         if "calls" in spec:
             spec["calls"]["cache"] = hull_cache
+        if "budget" in spec:
+            spec["budget"]["cut_after_passes"] = task.get("cut_after_passes", 400)
         progress.mark({"model": model, "cfg": cfg, "stream": "big_interp"})
         out = modelrun.run_enum(model, cfg, spec, stop_after=task.get("stop_after", 3))
         res["evals"] += 1
@@ -604,7 +606,9 @@ def run_big_interp(task):
         for k, v in out.monitor_counts.items():
             if isinstance(v, (int, float)) and not k.endswith("_limit"):
                 cnt(k, v)
-        if out.error == "budget":
+        if out.error == "budget" and str(out.error_detail).startswith("cut-off"):
+            cnt("big_interp.runs_cut_by_the_workload_cap")
+        elif out.error == "budget":
             cnt("big_interp.step_budget_exceeded")
             if "C04" in want:
                 res["fails"].append({"prop": "C04", "kind": "step_budget", "detail": out.error_detail, "model": model,
